@@ -286,7 +286,8 @@ def sched_job(case):
 
 def run(ctx):
     quick = ctx.tier == "quick"
-    base = {"NUpdates": "2" if quick else "3", "MaxTimers": "5" if quick else "6", "Emit": "FALSE"}
+    base = {"NUpdates": "2" if quick else "3", "MaxTimers": "5" if quick else "6", "Emit": "FALSE", "OutFail": "FALSE",
+            "ExitOrder": '"stop-first"'}
     # (A) the design: interleavings of caller and callbacks
     ctx.tlc("Progress", CFG_MC, label="repaired protocol, return / exit: all interleavings", workers=8,
             constants=dict(base, Protocol='"locked"', AbortModes='{"none","exit"}'))
@@ -296,6 +297,14 @@ def run(ctx):
                     constants=dict(base, Protocol=proto, AbortModes=ab))
         if r.ok:
             raise core.MachineryError("Progress.tla does not distinguish: " + label)
+    # the output stream may fail at any redraw (closed stream, broken pipe, a value the format rejects)
+    ctx.tlc("Progress", CFG_MC, label="repaired protocol, any redraw may raise: all interleavings", workers=8,
+            constants=dict(base, Protocol='"locked"', AbortModes='{"none","exit"}', OutFail="TRUE"))
+    r = ctx.tlc("Progress", CFG_MC, label="deviation: exit() redraws before it stops the timer, failing output (must violate)",
+                workers=8, must_hold=False,
+                constants=dict(base, Protocol='"locked"', AbortModes='{"none"}', OutFail="TRUE", ExitOrder='"print-first"'))
+    if r.ok:
+        raise core.MachineryError("Progress.tla does not distinguish the exit order under failing output")
     ctx.tlc("Progress", CFG_LIVE, label="liveness under fairness: activity dies out", workers=4,
             constants=dict(base, Protocol='"locked"', AbortModes='{"none","exit"}', MaxTimers="4"))
     # (B) schedule replay on the real ProgressBar
@@ -304,8 +313,12 @@ def run(ctx):
                   constants=dict(base, Protocol='"locked"', AbortModes='{"none","exit","noexit"}', Emit="TRUE",
                                  MaxTimers="6"),
                   simulate="num=%d" % nsim, extra=["-depth", "80", "-seed", str(ctx.seed + 5)])
+    gen2 = ctx.tlc("Progress", CFG_GEN, label="sampled schedules with failing output for replay", workers=1,
+                   constants=dict(base, Protocol='"locked"', AbortModes='{"none","exit"}', Emit="TRUE", MaxTimers="6",
+                                  OutFail="TRUE"),
+                   simulate="num=%d" % nsim, extra=["-depth", "80", "-seed", str(ctx.seed + 6)])
     seen, cases = set(), []
-    for c in gen.cases:
+    for c in list(gen.cases) + [c for c in gen2.cases if any(h[1] == "print_fail" for h in c["hist"])]:
         hk = json.dumps(c["hist"])
         if hk in seen or c["ntimers"] >= 6:
             continue
